@@ -52,13 +52,17 @@ pub fn first_non_whitespace(
     segments: &[ErasedSegment],
     start_idx: u32,
 ) -> Option<(String, &SyntaxSet)> {
-    for segment in segments.iter().skip(start_idx as usize) {
-        if let Some(raw) = segment.first_non_whitespace_segment_raw_upper() {
-            return Some((raw, segment.class_types()));
-        }
+    // Only a code segment standing at `start_idx` itself can be compared with
+    // the first-token hints: a matcher asked at whitespace, a newline or a
+    // comment may skip it and start on the code behind it, so the raw of such
+    // a segment says nothing about what can match here.
+    let segment = segments.get(start_idx as usize)?;
+    if !segment.is_code() {
+        return None;
     }
 
-    None
+    let raw = segment.first_non_whitespace_segment_raw_upper()?;
+    Some((raw, segment.class_types()))
 }
 
 pub fn prune_options(
